@@ -291,7 +291,7 @@ def make_program(seqs, std):
     """seqs: list of (sid, ops).  One program performing all of them in order."""
     body = "\n".join(seq_function(sid, ops) for sid, ops in seqs)
     calls = "\n".join(f"    Main.seq{sid}();" for sid, _ in seqs)
-    text = PRELUDE + "\nclass Main {\n" + body + "\n  function main(): unit = {\n" + calls + "\n  }\n}\n"
+    text = PRELUDE + "\nclass Main {\n" + body + "\n  function main(): unit = {\n    Process.println(\"#c18 \" :: Int.init(0).toString());\n" + calls + "\n  }\n}\n"
     srcs = dict(std)
     srcs["Main"] = text
     return {"origin": "c18:" + ",".join(str(s) for s, _ in seqs[:3]) + ("..." if len(seqs) > 3 else ""),
@@ -535,7 +535,7 @@ def trace_rows(seqs, results):
             obs = []
             for ln, who in groups.items():
                 parts = parse_line(kind, ln)
-                obs.append({"who": who, "ok": parts is not None, "parts": parts if parts is not None else [], "raw": "" if parts is not None else ln})
+                obs.append({"who": who, "ok": parts is not None, "parts": parts if parts is not None else [], "raw": ln})
             rows.append({"ev": "op", "id": sid, "i": i, "o": o, "obs": obs, "lines": {ln: who for ln, who in groups.items()}})
     return rows
 
@@ -559,7 +559,7 @@ def judge(d, tag, rows, kfs, stats, chunk_rows=60000, jobs=6):
     Returns (bad_rows, known_rows): lists of row indices."""
     hdr = os.path.join(d, f"trace-{tag}.hdr")
     with open(hdr, "w") as f:
-        json.dump({"builds": BUILDS, "excuse": [{"ops": k["ops"], "raw": k.get("raw", "")} for k in kfs if k.get("ops")]}, f)
+        json.dump({"builds": BUILDS, "excuse": [{"ops": k["ops"], "line": k.get("line", ""), "who": k.get("who", [])} for k in kfs if k.get("ops")]}, f)
     chunks = []
     start = 0
     last_seq = 0
